@@ -99,7 +99,7 @@ PROPS = {
     },
     "C08": {
         "level": "proof",
-        "units": ["extlat", "adj"],
+        "units": ["extlat", "adj", "imsaak"],
         "rule": "falsifier: policy P vs ExtremeLatitudeMethod::None on the same inputs, |lat|<=70, 8 methods x 14 policies, half of the cases where twilight is missing; non-trivial = distinct (policy, twilight missing?, date class)",
         "trusted": ["'conventional' = result under policy None (which still runs the interval pass)"],
         "assumptions": COMMON_ASSUME,
